@@ -362,6 +362,116 @@ def r3_5(F, R):
         R.violation("R3.5", "unsafe-inventory", "token::lexer has %d unsafe blocks, audited: 1" % len(ub), None)
 
 
+def _stores_are_char_counts(fn, field):
+    """every value stored into `self.<field>` in fn is built from constants, Chars::count and differences `a.len() - b.len()` where b is
+    `a.trim_*_matches(c)` for a constant ASCII character c (each trimmed character is one byte, so the difference counts characters)"""
+    D = Defs(fn)
+
+    def recv(o, depth=6):
+        p = op_place(o)
+        for _ in range(depth):
+            if p is None:
+                return None
+            d = D.single(p["l"])
+            if d is None or d[0] != "st" or d[3]["k"] != "=" or p["p"] not in ([], ["*"]):
+                return (p["l"], tuple(str(e) for e in p["p"]))
+            rv = d[3]["rv"]
+            if rv["k"] == "ref":
+                p = rv["pl"]
+                if p["p"] == ["*"]:
+                    p = {"l": p["l"], "p": []}
+                continue
+            if rv["k"] == "use":
+                p = op_place(rv["op"])
+                continue
+            return (p["l"], ())
+        return None
+
+    def len_of(o):
+        p = op_place(o)
+        d = D.single(p["l"]) if p is not None and not p["p"] else None
+        if d and d[0] == "call" and strip_generics(callee_name(d[3]) or "").endswith("str>::len") and d[3]["args"]:
+            return d[3]["args"][0]
+        return None
+
+    def trim_diff(a, b):
+        sa, sb = len_of(a), len_of(b)
+        if sa is None or sb is None:
+            return False
+        rb = op_place(sb)
+        for _ in range(4):
+            if rb is None:
+                return False
+            d = D.single(rb["l"])
+            if d is None:
+                return False
+            if d[0] == "call":
+                t = d[3]
+                n = strip_generics(callee_name(t) or "").split("::")[-1]
+                if n in ("trim_end_matches", "trim_start_matches", "trim_matches") and len(t["args"]) == 2:
+                    c = (t["args"][1].get("c") or {}) if isinstance(t["args"][1], dict) else {}
+                    return c.get("ty") == "char" and 0 <= c.get("int", 999) < 128 and recv(t["args"][0]) is not None and recv(t["args"][0]) == recv(sa)
+                return False
+            if d[3]["k"] == "=" and d[3]["rv"]["k"] in ("use",):
+                rb = op_place(d[3]["rv"]["op"])
+                continue
+            if d[3]["k"] == "=" and d[3]["rv"]["k"] == "ref":
+                rb = {"l": d[3]["rv"]["pl"]["l"], "p": []}
+                continue
+            return False
+        return False
+
+    def ok(o, depth=10, seen=()):
+        p = op_place(o)
+        if p is None:
+            return True
+        if p["p"] and isinstance(p["p"][-1], dict) and p["p"][-1].get("n") == field:
+            return True   # the field itself (`self.f = self.f.saturating_sub(1)`)
+        if depth == 0 or p["l"] in seen:
+            return False
+        if fn.local_ty(p["l"]) not in ("usize", "(usize, bool)") and not fn.local_ty(p["l"]).startswith("("):
+            return False
+        dl = D.defs.get(p["l"], [])
+        if not dl or 1 <= p["l"] <= fn.argc:
+            return False
+        for d in dl:
+            if d[0] == "call":
+                n = strip_generics(callee_name(d[3]) or "").split("::")[-1]
+                if n in ("saturating_sub", "saturating_add", "min", "max", "wrapping_add") and all(ok(a, depth - 1, seen + (p["l"],)) for a in d[3]["args"]):
+                    continue
+                if n != "count":
+                    return False
+                continue
+            rv = d[3].get("rv", {})
+            k = rv.get("k")
+            if k == "use":
+                if not ok(rv["op"], depth - 1, seen + (p["l"],)):
+                    return False
+            elif k == "bin" and rv["op"] in ("Add", "AddWithOverflow"):
+                if not (ok(rv["a"], depth - 1, seen + (p["l"],)) and ok(rv["b"], depth - 1, seen + (p["l"],))):
+                    return False
+            elif k == "bin" and rv["op"] in ("Sub", "SubWithOverflow"):
+                if not trim_diff(rv["a"], rv["b"]):
+                    return False
+            elif k == "agg":
+                for a in rv["ops"]:
+                    pa = op_place(a)
+                    if pa is not None and fn.local_ty(pa["l"]) != "usize":
+                        continue   # the non-numeric half of a tuple
+                    if not ok(a, depth - 1, seen + (p["l"],)):
+                        return False
+            else:
+                return False
+        return True
+    stores = [st for b in fn.blocks for st in b["s"] if st["k"] == "=" and st["lhs"]["p"] and isinstance(st["lhs"]["p"][-1], dict) and st["lhs"]["p"][-1].get("n") == field]
+    if not stores:
+        return False
+    for st in stores:
+        if st["rv"]["k"] != "use" or not ok(st["rv"]["op"]):
+            return False
+    return True
+
+
 def r3_6(F, R):
     from ..dataflow import Flow
     R.rule("R3.6", "unit discipline of trace keys: one key per character — every argument of KeyRange::advance_by in the raw lexer derives from a "
@@ -382,6 +492,10 @@ def r3_6(F, R):
             inst = "%s@advance_by#%d" % (strip_generics(fn.name), n)
             byteish = ("len" in calls) or ("pos" in fields) or ("next_line" in fields) or ("len_utf8" in calls)
             charish = ("count" in calls) or ("num_trimmed_right" in fields)
+            if byteish and "count" not in calls and _stores_are_char_counts(fn, "num_trimmed_right"):
+                # `line.len() - line.trim_end_matches(' ').len()` (+ constants): the number of trailing one-byte characters, a character count
+                R.ok("R3.6", inst, "character count: length difference around a trim by an ASCII character, plus constants", fn.loc(t), how="def-use")
+                continue
             if byteish and "count" not in calls:
                 R.violation("R3.6", inst, "%s advances the trace keys by a byte quantity (origins: calls %s, fields %s): after non-ASCII text every later token of the "
                             "file is traced to the wrong column or line" % (fn.name, sorted(calls & {"len", "len_utf8"}), sorted(fields & {"pos", "next_line"})), fn.loc(t))
@@ -390,6 +504,10 @@ def r3_6(F, R):
             else:
                 R.violation("R3.6", inst, "%s advances the trace keys by a quantity that is not a character count (origins: %s)" % (fn.name, sorted(calls)[:5]), fn.loc(t))
     R.floor("R3.6", "advance_by call sites", n, 3)
+
+
+STR_CHAR_PATTERN_METHODS = ("find", "rfind", "trim_end_matches", "trim_start_matches", "trim_matches", "split_once", "rsplit_once", "strip_suffix", "strip_prefix",
+                            "ends_with", "starts_with", "contains", "split", "rsplit", "split_terminator", "split_inclusive", "matches", "match_indices")
 
 
 def r3_7(F, R):
@@ -416,6 +534,18 @@ def r3_7(F, R):
                     bad.append(("%s on a char" % rv["op"], fn.loc(st)))
         t = b["t"]
         if t["k"] == "call":
+            n0 = strip_generics(callee_name(t) or "")
+            if n0.startswith("core::str::<impl str>::") and n0.split("::")[-1] in STR_CHAR_PATTERN_METHODS:
+                pats = [a.get("c") for a in t["args"][1:] if isinstance(a, dict) and a.get("c")]
+                if any(c.get("ty") == "char" and "int" in c for c in pats):
+                    for c in pats:
+                        if c.get("ty") == "char" and "int" in c:
+                            consts.add(c["int"])     # `find('\n')`, `trim_end_matches(' ')`: equality with that one character
+                else:
+                    bad.append((n0.split("::")[-1] + " with a pattern that is not a character constant", fn.loc(t)))
+            elif n0.startswith("core::str::<impl str>::") and n0.split("::")[-1] in ("trim", "trim_end", "trim_start", "lines", "split_whitespace", "split_ascii_whitespace",
+                                                                                      "trim_ascii", "trim_ascii_end", "trim_ascii_start"):
+                bad.append((n0.split("::")[-1], fn.loc(t)))
             for a in t["args"]:
                 p = op_place(a)
                 if p is not None and not p["p"] and p["l"] in char_locals:
